@@ -62,14 +62,48 @@ def train_path(model, scr):
     return model
 
 
-def check_case(e, rng):
+CLI_TMP = [None]
+
+
+def cli_train_path(kind, scr):
+    """the REAL train_model command on the saved screen, stopped where it would start sampling: returns the model it built"""
+    import types
+    from batchie.cli import train_model as tm
+    fn = os.path.join(CLI_TMP[0], "train_in.h5")
+    scr.save_h5(fn)
+    got = {}
+
+    class Stop:
+        @staticmethod
+        def sample(model, results=None, *a, **k):
+            got["model"] = model
+            return types.SimpleNamespace(save_h5=lambda f: None)
+    old_s, old_argv = tm.sampling, sys.argv
+    tm.sampling = Stop
+    sys.argv = ["x", "--data", fn, "--model", "SparseDrugCombo" if kind == "combo" else "SparseDrugComboInteraction", "--model-param", "n_embedding_dimensions=2",
+                "--output", os.path.join(CLI_TMP[0], "th.h5"), "--n-samples", "1", "--n-burnin", "0", "--thin", "1", "--n-chains", "1", "--chain-index", "0", "--seed", "0"]
+    try:
+        tm.main()
+    finally:
+        tm.sampling, sys.argv = old_s, old_argv
+    return got["model"]
+
+
+def check_case(e, rng, via_cli=False):
     rows = e["rows"]
     for kind in ("combo", "inter"):
         scr = build(rows, rng, ok_range=(0.05, 1.4) if kind == "combo" else (0.05, 0.95))
         env = {"obs": scr.observations}
         sp = ExperimentSpace.from_screen(scr)
         model = (SC.SparseDrugCombo if kind == "combo" else SI.SparseDrugComboInteraction)(experiment_space=sp, n_embedding_dimensions=2)
-        st, r = outcome(train_path, model, scr)
+        if via_cli:
+            st, r = outcome(cli_train_path, kind, scr)
+            if st == "ok":
+                model = r
+        else:
+            st, r = outcome(train_path, model, scr)
+        if e["refuse"] and st != "ok" and not via_cli and model.n_obs() != 0:
+            return "%s refused the input but kept %d of its experiments as training data" % (kind, model.n_obs())
         if e["refuse"]:
             if st == "ok":
                 return "%s accepted observed negative / NaN observations (value classes %s)" % (kind, [(x["c"], x["m"]) for x in rows])
@@ -239,8 +273,9 @@ def run(ctx):
     budget = 2500 if ctx.quick else 40000
     pick = cases if len(cases) <= budget else rnd.sample(cases, budget)
     nbad = 0
-    for e in pick:
-        msg = check_case(e, rng)
+    CLI_TMP[0] = tempfile.mkdtemp(prefix="verif-c04-cli-")
+    for ci_, e in enumerate(pick):
+        msg = check_case(e, rng) or (check_case(e, rng, via_cli=True) if ci_ % 3 == 0 else None)
         ctx.evaluations += 1
         if msg:
             nbad += 1
@@ -248,6 +283,7 @@ def run(ctx):
                 ctx.violation(msg, {"kind": "train", "rows": e["rows"]})
             if nbad > 20:
                 break
+    shutil.rmtree(CLI_TMP[0], ignore_errors=True)
     ctx.traces += len(pick)
     ctx.exhaustive = len(pick) == len(cases)
     ctx.sample({"train_case": {"rows": pick[len(pick) // 2]["rows"], "combo": pick[len(pick) // 2]["combo"]}})
